@@ -65,10 +65,10 @@ var yamlOf = map[string]map[string]string{
 		"i_to0":      "circuit_breaker:\n  enabled: true\n  max_requests: 5\n  interval_seconds: 60\n  timeout_seconds: 0\n  failure_threshold: 5\n  success_threshold: 2\n",
 		"i_iv0":      "circuit_breaker:\n  enabled: true\n  max_requests: 5\n  interval_seconds: 0\n  timeout_seconds: 60\n  failure_threshold: 5\n  success_threshold: 2\n",
 		"i_mr_lt_st": "circuit_breaker:\n  enabled: true\n  max_requests: 1\n  interval_seconds: 60\n  timeout_seconds: 60\n  failure_threshold: 5\n  success_threshold: 3\n"},
-	"metrics": {"off": "", "on": "metrics:\n  enabled: true\n  port: 19090\n  path: \"/metrics\"\n", "i_port0": "metrics:\n  enabled: true\n  port: 0\n  path: \"/metrics\"\n", "i_nopath": "metrics:\n  enabled: true\n  port: 19090\n",
+	"metrics": {"off": "", "off_port19091": "metrics:\n  enabled: false\n  port: 19091\n  path: \"/metrics\"\n", "on": "metrics:\n  enabled: true\n  port: 19090\n  path: \"/metrics\"\n", "i_port0": "metrics:\n  enabled: true\n  port: 0\n  path: \"/metrics\"\n", "i_nopath": "metrics:\n  enabled: true\n  port: 19090\n",
 		"n_health_path": "metrics:\n  enabled: true\n  port: 19090\n  path: \"/health\"\n", "n_brace_path": "metrics:\n  enabled: true\n  port: 19090\n  path: \"/m{x\"\n",
 		"n_noslash_path": "metrics:\n  enabled: true\n  port: 19090\n  path: \"metrics\"\n"},
-	"admin": {"off": "", "on": "admin_api:\n  enabled: true\n  port: 19091\n  auth_token: \"change-me\"\n",
+	"admin": {"off": "", "off_port8080": "admin_api:\n  enabled: false\n  port: 8080\n", "on": "admin_api:\n  enabled: true\n  port: 19091\n  auth_token: \"change-me\"\n",
 		"on_lists": "admin_api:\n  enabled: true\n  port: 19091\n  ip_allow_list:\n    - \"127.0.0.1\"\n    - \"192.168.1.0/24\"\n  ip_deny_list:\n    - \"203.0.113.0/24\"\n",
 		"i_port":   "admin_api:\n  enabled: true\n  port: 70000\n"},
 	"loglevel":  {"info": "  level: \"info\"\n", "debug": "  level: \"debug\"\n", "warn": "  level: \"warn\"\n", "error": "  level: \"error\"\n", "fatal": "  level: \"fatal\"\n", "unset": "", "i_verbose": "  level: \"verbose\"\n"},
